@@ -1,21 +1,23 @@
 /-
-C13 helper lemmas, part 9 (routes of any length): `write()` at the origin of a route of two or more
-hops — first hop, listening restored, and the first `read()` of the wait loop, inside which the whole
-route runs (`route_ack_all`) and after which the NETWORK_ACK is in the origin's RX FIFO.
+C13, the air log of the acknowledged journey, part 5 (the top): `write()` at the origin of a route of two
+or more hops, with the air log.  `live_hops_air` / `live_route_air` are `Nrf.Net.Hops.live_hops` /
+`live_route` with the transmit cycles the call adds to `World.air`: first the origin's single
+transmission of the data frame `pk` to the first hop, then — nested in the first `read()` of the wait
+loop — the routers' transmissions `ackPlan … 1 (dist − 1)`: every router sends `pk` on, and on the way
+back the NETWORK_ACK `pkA`.  Nothing else is logged.
 -/
-import NrfProofs.C13HopsRoute
+import NrfProofs.C13Air4
 
-namespace Nrf.Net.Hops
-open Nrf Nrf.Spec Nrf.Proofs Nrf.Props.C04
+namespace Nrf.Net.Air
+open Nrf Nrf.Spec Nrf.Proofs Nrf.Props.C04 Nrf.Net.Hops
 
-/-- **The NETWORK_ACK round trip over a route of any length ≥ 2** (closed system, loss-free, driver
-    contracts): the origin `a` (tree node `x`) writes a single-frame message of an acknowledged type
-    (65..191; one the destination hands to the application, `SysOk`) for `d`, `dist x d ≥ 2` hops away; the first hop `r` (tree node `y`), the destination `jd` and every
-    node of the route in between are present in a listening, quiet tree network, the packet each of them
-    accepted last not carrying this frame's bytes (origin: the bytes of this frame's NETWORK_ACK; `NotDupFrame`); the destination's queue accepts the frame.  `write()` returns `True` (the
-    acknowledgement is read in the very first `_net_update()` of the wait loop), the destination's
-    queue has gained exactly that message, and no other queue changed. -/
-theorem live_hops (hc : L3Contracts) (cfg : AddrCfg) (hcfg : CfgOk cfg) (L : LinkCfg) (tree : Nat → List Nat)
+/-- **The NETWORK_ACK round trip over a route of any length ≥ 2, on the air** (`Nrf.Net.Hops.live_hops`
+    with the air log): `write()` returns `True`, and the transmit cycles it adds to the air log are
+    exactly: one acknowledged single-attempt transmission of the packed frame `pk` by the origin's radio,
+    then the routers' transmissions `ackPlan x d pk pkA 1 (dist x d - 1)` — `pk` forward by every router,
+    the packed NETWORK_ACK `pkA` back by every router, nested. -/
+theorem live_hops_air (hc : L3Contracts) (hair : AirContracts) (cfg : AddrCfg) (hcfg : CfgOk cfg) (L : LinkCfg)
+    (tree : Nat → List Nat)
     (s : NetState) (a r jd : Nat) (x y d : List Nat) (ty : Int) (msg : Bytes)
     (hok : NetOk cfg L tree s) (hcur : s.cur = a) (hact : s.active = [a])
     (ha : a < s.nodes.length) (hr : r < s.nodes.length) (hjd : jd < s.nodes.length)
@@ -30,9 +32,12 @@ theorem live_hops (hc : L3Contracts) (cfg : AddrCfg) (hcfg : CfgOk cfg) (L : Lin
     (hty : 65 ≤ ty ∧ ty ≤ 191) (hsys : SysOk ty.toNat (s.nodeAt jd).retSysMsg)
     (hlen : msg.length ≤ MAX_FRAG_SIZE) (hmax : msg.length ≤ (s.nodeAt a).maxMessageLength)
     (hacc : Accepts (s.nodeAt jd).queue (wireCopy (callerFrame x d s.nextId ty msg))) :
-    ∃ s1, nexec (apiNetWrite (val d) ty msg AUTO_ROUTING) s = (.ok (true, callerFrame x d s.nextId ty msg), s1) ∧
-      DeliveredOnce s.nodes s1.nodes jd (val x) ty.toNat msg ∧
-      ∀ i, i < s.nodes.length → (s1.radioAt i).rxFifo = [] := by
+    ∃ s1 pk pkA new,
+      nexec (apiNetWrite (val d) ty msg AUTO_ROUTING) s = (.ok (true, callerFrame x d s.nextId ty msg), s1) ∧
+      (wireCopy (callerFrame x d s.nextId ty msg)).pack = .ok pk ∧
+      (ackOf (wireCopy (callerFrame x d s.nextId ty msg))).pack = .ok pkA ∧ pk ≠ pkA ∧
+      s1.w.air = s.w.air ++ new ∧
+      Forall2 (SentBy tree s) new ((x, pk) :: ackPlan x d pk pkA 1 (dist x d - 1)) := by
   have hxd : x ≠ d := by
     intro e; rw [e, dist_self] at h2; omega
   have hdy : dist y d + 1 = dist x d := by rw [← hy1]; exact dist_nextHop hxd
@@ -115,7 +120,7 @@ theorem live_hops (hc : L3Contracts) (cfg : AddrCfg) (hcfg : CfgOk cfg) (L : Lin
     rw [hs'n]; show logi2phys s.node.a _ _ = _
     rw [hnode, hn2, l2p_tree hn1 hdn (Or.inl rfl), hy1]
   have hWf : s.drv.Wf := hn6
-  obtain ⟨D, e3, r3, l3, f3, N3, x3, lr3, ⟨pid, hrb⟩, hoth3⟩ := hop_single hc 199998 s' L P Pr r
+  obtain ⟨D, e3, r3, l3, f3, N3, x3, lr3, ⟨pid, hrb⟩, hoth3, rec, hairD, hrec⟩ := hop_single_air hc hair 199998 s' L P Pr r
     (hopPipe x d) (val y) (hopPipe x d) A pk
     (by rw [hs'c, hs'l]; exact ha) hs'cl (by rw [hs'l]; omega)
     (by
@@ -149,7 +154,7 @@ theorem live_hops (hc : L3Contracts) (cfg : AddrCfg) (hcfg : CfgOk cfg) (L : Lin
   have hDW : D.Wf := by unfold DrvState.Wf; rw [hDrid, l3, hs'w]; exact hn6
   -- listening again, then the wait
   have hs'cur : s'.cur < s'.nodes.length := by rw [hs'c, hs'l]; exact ha
-  obtain ⟨D5, e5a, e5b, F5, N5, x5⟩ := restore hc s' D L P true hs'cur hDW N3
+  obtain ⟨D5, e5a, e5b, F5, N5, x5, hairD5⟩ := restore_air hc hair s' D L P true hs'cur hDW N3
   have hD5rid : D5.d.rid = s.ridAt s.cur := by rw [F5.rid]; exact hDrid
   have hD5fifo : D5.radio.rxFifo = [] := by rw [x5, x3, hs'd]; exact hquiet s.cur ha
   have hD5last : NotDupFrame D5.radio (ackOf fr) := by
@@ -268,8 +273,8 @@ theorem live_hops (hc : L3Contracts) (cfg : AddrCfg) (hcfg : CfgOk cfg) (L : Lin
         hs4at jd (fun e => hajd e.symm)]
       exact hsys
   have hbound : dist x d ≤ 8 := C04_route_bound x d hn1 hdn
-  obtain ⟨sr', er, Aok, Acur, Aact, Asame, ⟨qA, Afifob⟩, Afifo, Aqueue, _⟩ :=
-    route_ack_all hc cfg hcfg L tree fr pk pkA ty.toNat x d T hpkA hndef (dist x d - 2) sr (199995 - r) s.cur Hr (by
+  obtain ⟨sr', er, ⟨Aok, Acur, Aact, Asame, ⟨qA, Afifob⟩, Afifo, Aqueue, _⟩, new, hairR, hplan⟩ :=
+    route_ack_all_air hc hair cfg hcfg L tree fr pk pkA ty.toNat x d T hpkA hndef (dist x d - 2) sr (199995 - r) s.cur Hr (by
       rw [hsrl]
       have h1 : (dist x d - 2 + 2) * (s.nodes.length + 16) ≤ 8 * (s.nodes.length + 16) :=
         Nat.mul_le_mul_right _ (by omega)
@@ -277,7 +282,7 @@ theorem live_hops (hc : L3Contracts) (cfg : AddrCfg) (hcfg : CfgOk cfg) (L : Lin
   rw [hsrl] at Afifo Aqueue
   have hpkAl : pkA.length = 8 + fr.message.length := pack_length (fr := ackOf fr) hpkA
   -- the first read of the wait loop: the route runs, then the acknowledgement is there
-  obtain ⟨s7, e7, ok7, c7, a7, same7, x7, lr7, rad7, q7⟩ := read_nested hc s4 sr' s.cur r (199995 - r) 0 hok4 hs4c
+  obtain ⟨s7, e7, ok7, c7, a7, same7, x7, lr7, rad7, q7, hair7⟩ := read_nested_air hc hair s4 sr' s.cur r (199995 - r) 0 hok4 hs4c
     (by rw [hs4l]; exact ha) (by rw [hs4l]; exact hr) hra (by rw [hs4a]; simpa using hra)
     (by rw [hs4radr]; rfl)
     (by
@@ -329,35 +334,28 @@ theorem live_hops (hc : L3Contracts) (cfg : AddrCfg) (hcfg : CfgOk cfg) (L : Lin
       (fun e => hyd (val_inj hyn.1 hdn.1 e)) e3 e5a e5b hnu
   rw [hnw] at hw
   simp only [] at hw
-  have hfin : ∀ k, k < s.nodes.length → (s8.radioAt k).rxFifo = [] := by
-    intro k hk
-    rw [← hs8, radioAt_withFrame]
-    by_cases hka : k = s.cur
-    · subst hka; rw [x7, Afifob]; rfl
-    · rw [rad7 k (by rw [hs4l]; exact hk) hka]; exact Afifo k hk hka
-  refine ⟨s8, hw, ?_, hfin⟩
-  -- exactly once, nowhere else
-  have hs8l : s8.nodes.length = s.nodes.length := by rw [← hs8]; simp; exact hs7l
-  have hs8q : ∀ k, (s8.nodeAt k).queue = (sr'.nodeAt k).queue := by
-    intro k
-    rw [← hs8, queue_withFrame, q7]
-  refine ⟨hs8l, ⟨fr, ?_, ?_⟩, ?_⟩
-  · show (s8.nodeAt jd).queue.frames = (s.nodeAt jd).queue.frames ++ [fr]
-    rw [hs8q, Aqueue jd hjd, if_pos htd, hsrq]
-  · rw [hwc]; exact ⟨rfl, rfl, rfl⟩
-  · intro k hk
-    show (s8.nodeAt k).queue.frames = (s.nodeAt k).queue.frames
-    by_cases hkl : k < s.nodes.length
-    · rw [hs8q, Aqueue k hkl, if_neg (fun e => (hok.inj k jd hkl hjd hk).1 (e.trans htd.symm)), hsrq]; simp
-    · unfold NetState.nodeAt
-      rw [List.getD_eq_getElem?_getD, List.getD_eq_getElem?_getD,
-        List.getElem?_eq_none (by omega), List.getElem?_eq_none (by omega)]
+  -- the air log
+  have hs4air : s4.w.air = s.w.air ++ [rec] := by
+    rw [← hs4]; show D5.w.air = _; rw [hairD5, hairD, hs'w]
+  have hsrair : sr.w.air = s4.w.air := by rw [← hsr]; rfl
+  have hs8air : s8.w.air = s7.w.air := by rw [← hs8]; rfl
+  have hsamer : Same s sr := by rw [← hsr]; exact hsame4.trans (Same.switchTo s4 r)
+  have hd1 : dist x d - (dist x d - 2 + 1) = 1 := by omega
+  have hd2 : dist x d - 2 + 1 = dist x d - 1 := by omega
+  rw [hd1, hd2] at hplan
+  refine ⟨s8, pk, pkA, rec :: new, hw, hpk, hpkA, hpkne, ?_, ?_⟩
+  · rw [hs8air, hair7, hairR, hsrair, hs4air, List.append_assoc]; rfl
+  · refine Forall2.cons ?_ ((forall2_sentBy_of_same hsamer).mpr hplan)
+    obtain ⟨h1, h2, h3, h4⟩ := hrec
+    refine ⟨s.cur, ha, hta, ?_, h2, h3, h4⟩
+    rw [h1, hs'rid, hs'c]
 
-/-- `live_hops` with the first hop and the destination picked from the route: in a listening, quiet tree
-    network in which every node of the tree route from `tree a` to `d` (two or more hops) is present and
-    satisfies the non-duplicate condition (`NotDupFrame`; not necessarily fresh), `write()` of a single-frame message of an acknowledged type the destination queues (`SysOk`) returns
-    `True`, the destination's queue has gained exactly that message and no other queue changed -/
-theorem live_route (hc : L3Contracts) (cfg : AddrCfg) (hcfg : CfgOk cfg) (L : LinkCfg)
+/-- **`live_route` on the air**: `live_hops_air` with the first hop and the destination picked from the
+    route.  In a listening, quiet tree network in which every node of the tree route from `tree a` to `d`
+    (two or more hops) is present, `write()` of a single-frame message of an acknowledged type returns
+    `True`, and the transmit cycles it adds to the air log are exactly the origin's transmission of `pk`
+    followed by the routers' `ackPlan (tree a) d pk pkA 1 (dist (tree a) d - 1)`. -/
+theorem live_route_air (hc : L3Contracts) (hair : AirContracts) (cfg : AddrCfg) (hcfg : CfgOk cfg) (L : LinkCfg)
     (tree : Nat → List Nat) (s : NetState) (a : Nat) (d : List Nat) (ty : Int) (msg : Bytes)
     (hok : NetOk cfg L tree s) (hcur : s.cur = a) (hact : s.active = [a]) (ha : a < s.nodes.length)
     (hsize : s.nodes.length ≤ 20000) (hndef : ∀ i, val (tree i) ≠ NETWORK_DEFAULT_ADDR)
@@ -371,18 +369,22 @@ theorem live_route (hc : L3Contracts) (cfg : AddrCfg) (hcfg : CfgOk cfg) (L : Li
     (hmax : msg.length ≤ (s.nodeAt a).maxMessageLength)
     (hacc : ∀ j, j < s.nodes.length → tree j = d →
       Accepts (s.nodeAt j).queue (wireCopy (callerFrame (tree a) d s.nextId ty msg))) :
-    ∃ s1 jd, jd < s.nodes.length ∧ tree jd = d ∧
+    ∃ s1 jd pk pkA new, jd < s.nodes.length ∧ tree jd = d ∧
       nexec (apiNetWrite (val d) ty msg AUTO_ROUTING) s =
         (.ok (true, callerFrame (tree a) d s.nextId ty msg), s1) ∧
-      DeliveredOnce s.nodes s1.nodes jd (val (tree a)) ty.toNat msg ∧
-      ∀ i, i < s.nodes.length → (s1.radioAt i).rxFifo = [] := by
+      (wireCopy (callerFrame (tree a) d s.nextId ty msg)).pack = .ok pk ∧
+      (ackOf (wireCopy (callerFrame (tree a) d s.nextId ty msg))).pack = .ok pkA ∧ pk ≠ pkA ∧
+      s1.w.air = s.w.air ++ new ∧
+      Forall2 (SentBy tree s) new
+        ((tree a, pk) :: ackPlan (tree a) d pk pkA 1 (dist (tree a) d - 1)) := by
   obtain ⟨jd, hjd, htjd, _⟩ := hroute (dist (tree a) d) (by omega) (Nat.le_refl _)
   rw [hops_dist] at htjd
   obtain ⟨r, hr, htr, hlr⟩ := hroute 1 (by omega) (by omega)
   have htr' : tree r = nextHopSpec (tree a) d := htr
-  obtain ⟨s1, hw, hdel, hfin⟩ := live_hops hc cfg hcfg L tree s a r jd (tree a) (nextHopSpec (tree a) d) d ty msg hok hcur
+  obtain ⟨s1, pk, pkA, new, hw, hpk, hpkA, hne, hairN, hplan⟩ := live_hops_air hc hair cfg hcfg L tree s a r jd (tree a)
+    (nextHopSpec (tree a) d) d ty msg hok hcur
     hact ha hr hjd hsize hndef rfl htr' htjd rfl h2
     (fun k hk2 hkd => hroute k (by omega) hkd) hquiet horig hlr hty (hsys jd hjd htjd) hlen hmax (hacc jd hjd htjd)
-  exact ⟨s1, jd, hjd, htjd, hw, hdel, hfin⟩
+  exact ⟨s1, jd, pk, pkA, new, hjd, htjd, hw, hpk, hpkA, hne, hairN, hplan⟩
 
-end Nrf.Net.Hops
+end Nrf.Net.Air
